@@ -7,9 +7,11 @@
    server did), 2 divergence (the model of Params.v / DocTruth.v disagrees
    with the document or the server although the property holds), 9 malformed
    (the harness built a request that is not valid for the document),
-   107 known-finding class K7 (a parameter that belongs to a flattened struct
+   171 known-finding class K7a (a parameter that belongs to a flattened struct
    and is of integer or bool type: documented like any other, refused whatever
-   its value). *)
+   its value), 172 known-finding class K7b (a response type Option<T> with T a
+   referenceable type is documented as a bare reference to T: the nullable
+   marker is lost, and the body of None, null, is not valid for it). *)
 From Coq Require Import String.
 From DS Require Import Base Json Schema J2Oas SchemaSem Utf8 Pct Scalars Query.
 From DS Require Import Params DocTruth.
@@ -21,7 +23,8 @@ Definition V_AGREE : N := 0.
 Definition V_VIOLATION : N := 1.
 Definition V_DIVERGE : N := 2.
 Definition V_MALFORMED : N := 9.
-Definition V_K7 : N := 107.
+Definition V_K7A : N := 171.
+Definition V_K7B : N := 172.
 
 (* ------------------------------------------------------------ the document *)
 
@@ -86,7 +89,9 @@ Inductive s2sobs :=
 
 Inductive c07case :=
 (* one request to one operation *)
-| CReq (pp pq : option pspec) (op : docop) (comps : list (str * oschema))
+| CReq (pp pq : option pspec)
+       (rnull : bool)     (* the response body type is Option<T>, T referenceable *)
+       (op : docop) (comps : list (str * oschema))
        (req : docreq) (obs : c07obs)
 (* one operation of the document against the model: the parameter structs'
    specifications and titles, the response type (None: hand-rolled
@@ -280,8 +285,21 @@ Definition k7_class (pp pq : option pspec) (req : docreq) : bool :=
 
 Definition is_4xx (st : N) : bool := (400 <=? st) && (st <? 500).
 
-Definition judge_req (pp pq : option pspec) (op : docop) (comps : list (str * oschema))
-           (req : docreq) (o : c07obs) : N :=
+(* K7b: the body is null and the schema documented for it is a bare reference
+   to a component that does not accept null *)
+Definition k7b_shape (comps : list (str * oschema)) (op : docop) (o : c07obs) : bool :=
+  match find_resp (do_responses op) (ob_status o), ob_body o, ob_ctype o with
+  | Some r, ObJson JNull, Some ct =>
+      match content_lookup (dr_content r) (media_type ct) with
+      | Some (Some (ORef n)) =>
+          str_eqb (media_type ct) S_APPLICATION_JSON && negb (envO comps n JNull)
+      | _ => false
+      end
+  | _, _, _ => false
+  end.
+
+Definition judge_req (pp pq : option pspec) (rnull : bool) (op : docop)
+           (comps : list (str * oschema)) (req : docreq) (o : c07obs) : N :=
   if negb (req_wf comps op req && specs_match pp pq op) then V_MALFORMED else
   let accepted := ob_entered o =? 1 in
   let refused := (ob_entered o =? 0) && is_4xx (ob_status o) in
@@ -292,7 +310,8 @@ Definition judge_req (pp pq : option pspec) (op : docop) (comps : list (str * os
        clauses 2 and 3: whatever comes back is what the document lists *)
     if accepted && resp then
       (if model_acc && headers_ok op o then V_AGREE else V_DIVERGE)
-    else if k7_class pp pq req && refused && resp && negb model_acc then V_K7
+    else if k7_class pp pq req && refused && resp && negb model_acc then V_K7A
+    else if rnull && accepted && model_acc && k7b_shape comps op o then V_K7B
     else V_VIOLATION
   else
     (* clause 1b: a required parameter is missing: 4xx, handler not entered;
@@ -435,7 +454,7 @@ Definition judge_s2s (defs : list (str * schema)) (s : schema) (o : s2sobs) : N 
 
 Definition judge (c : c07case) : N :=
   match c with
-  | CReq pp pq op comps req o => judge_req pp pq op comps req o
+  | CReq pp pq rnull op comps req o => judge_req pp pq rnull op comps req o
   | CDoc pp pq tp tq rk hdrs he bx op comps => judge_doc pp pq tp tq rk hdrs he bx op comps
   | CS2S defs s o => judge_s2s defs s o
   end.
@@ -448,7 +467,7 @@ Definition xvalid (comps : list (str * oschema)) (o : oschema) (j : json) : N :=
   if valid_oas (J2OasSpec.env_oas pat_doc fmt_true FUEL comps) pat_doc fmt_true o j then 1 else 0.
 Definition xvec (c : c07case) : list N :=
   match c with
-  | CReq _ _ op comps req o =>
+  | CReq _ _ _ op comps req o =>
       map (fun s => match find_param (do_params op) (se_name s) (se_loc s) with
                     | Some p => xvalid comps (dp_schema p) (se_value s)
                     | None => 9
